@@ -49,9 +49,12 @@ ASSUMPTIONS = ['resolutions positive (closest_level: strictly decreasing, stretc
                'numerically meaningful range: resolution >= 1e-9 of the coordinate magnitude',
                'integer level indices (string level names of limit_tile not modelled)',
                'closest_level_spec: threshold_res = None; with thresholds closest_level_thr_general (switch rule at the level where the '
-               'current threshold is hit) and closest_level_thr_one_per_gap (closed form when every threshold has a gap of its own) '
-               'are proved; several thresholds in one gap / above the first level only through the general rule and the correspondence',
-               'foreign-SRS requests: PROJ transformation of the 16 outline points is taken as given (harness calls the same PROJ)',
+               'current threshold is hit), its complement closest_level_thr_general_unhit (current threshold never hit on the '
+               'remaining levels: closest_level), closest_level_thr_one_per_gap (closed form when every threshold has a gap of its '
+               'own) and closed forms for thresholds below / above all levels are proved; several thresholds in one gap only '
+               'through the two general rules (threshold_stuck, ex_thresholds_same_gap) and the correspondence',
+               'foreign-SRS requests: PROJ transformation of the 16 outline points is taken as given (the harness builds its own '
+               'pyproj transformer from the two CRS and requires SRS.transform_to to agree with it)',
                'configured grids: options set on the grid / a base grid / under globals / defaults 1.15, 4.0, 256 (configured_grid); other '
                'grid options (min_res, max_res, res_factor, align_resolutions_with, bbox_srs) are not part of the configuration stream']
 EXPLANATION = 'grid arithmetic proved over Z for all grids; implementation compared on exact and realistic streams'
@@ -1357,6 +1360,14 @@ def threshold_cases(R):
             if closest_ambiguous(gc, q):
                 R.skipped += 1
                 continue
+            # oracle: thresholds that are all finer than every level, or all on / above every level, are inert
+            # (closest_level_thr_below_all_levels, closest_level_thr_above_all_levels): the level is the one of the statement
+            if ths and (all(frac(t) < gc.res[-1] for t in ths) or all(frac(t) >= gc.res[0] for t in ths)):
+                ctx.count('threshold_inert_queries')
+                want = closest_spec(gc, fq)
+                if lv != want:
+                    ctx.fail('closest_level-threshold-inert', 'closest_level(%r) = %r with thresholds %r that lie outside of all '
+                             'levels, the specification says %r' % (q, lv, ths, want), dict(rep, expected=want))
             sq = fq * gc.S
             R.add('closest_thr', '(%s, %s, %s, %s, %s)' % (gc.name, llit([gc.z(t) for t in ths]), zlit(sq.numerator),
                                                        zlit(sq.denominator), zlit(lv)),
